@@ -141,35 +141,48 @@ def check(ctx, run):
                    what="" if ok else "unescaped text reaches the XML file: " + why)
     # ---------------- R2 ----------------------------------------------------
     enc = prog.fn(CLS + "::encodeXmlText")
-    reps = []
-    for p in enumerate_paths(enc):
-        seq = []
-        for c in path_calls(prog, enc, p):
-            if prog.callee_name(enc, c) == "SimpleString::replace":
-                a = [enc.strip(x) for x in enc.args(c)]
-                if len(a) == 2 and all(x is not None and x["k"] == "StringLiteral" for x in a):
-                    seq.append((a[0]["v"], a[1]["v"], render(enc, enc.node(c.get("obj")))))
-                else:
-                    seq.append((None, None, render(enc, c)))
-        reps.append(seq)
-    run.ob("R2", "single straight-line replacement sequence", enc.site, len(reps) == 1, witness=[[(a, b) for a, b, o in s] for s in reps])
-    seq = reps[0] if reps else []
-    got = {a: b for a, b, o in seq}
-    for ch, ent in ENTITY.items():
-        run.ob("R2", "entity for %r" % ch, enc.site, got.get(ch) == ent, witness={"found": got.get(ch), "required": ent},
-               what="" if got.get(ch) == ent else "character %r is not replaced by %s" % (ch, ent))
-    firsts = [i for i, (a, b, o) in enumerate(seq) if a == "&"]
-    later_amp = [i for i, (a, b, o) in enumerate(seq) if b and "&" in b and a != "&"]
-    ok = bool(firsts) and all(firsts[0] < i for i in later_amp)
-    run.ob("R2", "& is replaced before every replacement that produces &", enc.site, ok, witness=[(a, b) for a, b, o in seq],
-           what="" if ok else "an entity produced earlier would be escaped again")
-    objs = {o for a, b, o in seq}
-    rets = [render(enc, enc.node(n.get("value"))) for n in enc.walk() if n["k"] == "ReturnStmt"]
-    init = local_inits(enc)
-    src = render(enc, init[list(objs)[0]]) if len(objs) == 1 and list(objs)[0] in init else None
-    pname = enc.params[0]["name"]
-    ok = len(objs) == 1 and rets == list(objs) and src is not None and pname in src
-    run.ob("R2", "the replaced buffer is a copy of the argument and is what is returned", enc.site, ok, witness={"buffer": sorted(objs), "returns": rets, "init": src})
+    run.analysed(enc)
+
+    def mutable_replace(ev_, obj, frm, to):
+        key = ev_.last_obj_key
+        v = ev_.env.get(key)
+        conv = lambda x: chr(x & 0xFF) if isinstance(x, int) else (x[1] if isinstance(x, tuple) and x[0] == "str" else None)
+        f_, t_ = conv(frm), conv(to)
+        if not (isinstance(v, tuple) and v[0] == "str") or f_ is None or t_ is None or f_ == "":
+            return None
+        ev_.env[key] = ("str", v[1].replace(f_, t_))
+        return 0
+    mutable_replace.wants_ev = True
+
+    def fold_encode_xml(text):
+        ev = Evaluator(prog, enc, env={enc.params[0]["name"]: ("str", text)}, calls=string_hooks({"SimpleString::replace": mutable_replace}))
+        ev.pass_object = True
+        ev.run_blocks(enc.entry, max_steps=3000)
+        r = getattr(ev, "ret", None)
+        return r[1] if isinstance(r, tuple) and r[0] == "str" else r
+
+    def xml_escape(t):
+        t = t.replace("&", "&amp;")
+        for ch, ent in ENTITY.items():
+            if ch != "&":
+                t = t.replace(ch, ent)
+        return t
+    try:
+        for ch, ent in ENTITY.items():
+            got = fold_encode_xml("x%sy" % ch)
+            run.ob("R2", "entity for %r" % ch, enc.site, got == "x%sy" % ent, witness={"found": got, "required": "x%sy" % ent},
+                   what="" if got == "x%sy" % ent else "character %r is not replaced by %s" % (ch, ent))
+        bad = None
+        for text in ("a&b<c>d\"e\r\nf", "&amp;", "<<>>", "", "plain text", "&lt;&quot;", "it's", "\r\r\n&"):
+            got = fold_encode_xml(text)
+            if got != xml_escape(text) and bad is None:
+                bad = "encodeXmlText(%r) folds to %r, expected %r" % (text, got, xml_escape(text))
+        run.ob("R2", "encodeXmlText folded on 8 texts: every special character escaped exactly once (& before anything whose replacement contains &), the result is an escaped copy of the argument", enc.site, bad is None,
+               witness=bad or "8 texts", what="" if bad is None else "an entity produced earlier would be escaped again, or a character is left raw: " + bad)
+    except Unknown as u:
+        run.broke("C16.R2: encodeXmlText cannot be folded: %s" % u)
+    for k_ in range(1):
+        run.ob("R2", "the escaper takes its argument by value semantics (the caller's string is not modified)", enc.site, "const" in enc.params[0]["ct"], witness=enc.params[0]["ct"])
 
     # ---------------- R3 ----------------------------------------------------
     writers = ["writeXmlHeader", "writeTestSuiteSummary", "writeProperties", "writeTestCases", "writeFailure", "writeFileEnding"]
@@ -355,7 +368,8 @@ def check(ctx, run):
     miss = sorted(FNAME_FORBIDDEN - forb)
     run.ob("R5", "forbidden set covers / \\ : * ? \" < > |", ef.site, not miss, witness="".join(sorted(forb)), what="" if not miss else "not replaced: %s" % miss)
     def fold_encode(text):
-        def repl(ev_, key, frm, to):
+        def repl(ev_, obj, frm, to):
+            key = ev_.last_obj_key
             v = ev_.env.get(key)
             if not (isinstance(v, tuple) and v[0] == "str" and isinstance(frm, int) and isinstance(to, int)):
                 return None
@@ -363,7 +377,7 @@ def check(ctx, run):
             return 0
         repl.wants_ev = True
         ev = Evaluator(prog, ef, env={ef.params[0]["name"]: ("str", text)}, calls=string_hooks({"SimpleString::replace": repl}))
-        ev.pass_object = "key"
+        ev.pass_object = True
         ev.run_blocks(ef.entry, max_steps=3000)
         return getattr(ev, "ret", None)
     bad = None
